@@ -33,6 +33,29 @@ def run(R):
     _run(R)
     r7(R)
     r8(R)
+    r9(R)
+
+
+def r9(R):
+    R.rule("C10-R9", "every firing is delivered: a window hands its content to the registered consumer with a send that cannot lose it "
+                     "(mpsc::Sender::send or the blocking SyncSender::send); a try_send on a bounded queue drops the firing when the "
+                     "consumer is behind, so the continuous query never sees that window (multi-thread mode under load only)")
+    prog = R.prog
+    sends = []
+    for b in prog.bodies.values():
+        if b.crate != "kolibrie" or not b.file.endswith("rsp/s2r.rs") or "::tests::" in b.key or "__test" in b.key:
+            continue
+        for c in b.calls():
+            if "std::sync::mpsc" in (c.pretty or "") and c.name() in ("send", "try_send", "send_timeout", "send_deadline"):
+                sends.append((b, c))
+    R.floor("C10-R9", "consumer sends in rsp/s2r.rs", len(sends), 2)
+    seen = {}
+    for b, c in sends:
+        R.saw(b)
+        n = seen[b.key] = seen.get(b.key, 0) + 1
+        ok = c.name() == "send"
+        R.ob("C10-R9", "lossless:%s:%d" % (b.short, n), "%s delivers the window content with a send that cannot drop it (found %s)" % (b.short, c.name()),
+             ok, where=b.where(c.ln), detail=None if ok else "a full queue makes %s return Err(Full): this firing is never processed" % c.name())
 
 
 def r8(R):
